@@ -2,7 +2,7 @@
 
 PROPS = {
     "C07": {
-        "units": {"kani": ["c07_sha256", "c07_sha512", "c07_ripemd160"], "polyvc": ["c07_sha256_gates", "c07_sha512_gates"]},
+        "units": {"kani": ["c07_sha256", "c07_sha512", "c07_ripemd160"], "polyvc": ["c07_sha256_gates", "c07_sha512_gates", "c07_ripemd160_gates"]},
         "scope": "off-circuit spread/limb kernels of the SHA-256, SHA-512 and RIPEMD-160 chips (table contents and every witness limb are computed by them)",
         "not_decided": ["all in-circuit constraint emission, table wiring, message schedule, padding, varlen selection",
                         "Poseidon (chip, cpu, round skips), Keccak/SHA3, BLAKE2b"],
